@@ -195,9 +195,29 @@ func ZZC13(n int) {
 		r.Handle("/", &hnd{id: 10*i + 2}, nil, "GET")
 	}
 	removed := -1
-	if zzv.Choice("remove", 2) == 1 {
+	routers := g.Routers()
+	var byName [3]*Router[*hnd]
+	for i := range names {
+		byName[i] = routers[i]
+	}
+	order := []int{0, 1, 2}
+	if c := zzv.Choice("remove", 3); c >= 1 {
 		removed = zzv.Choice("which", 3)
 		g.Remove(names[removed])
+		order = nil
+		for i := 0; i < 3; i++ {
+			if i != removed {
+				order = append(order, i)
+			}
+		}
+		if c == 2 {
+			// the same router object comes back at the end of the list, now without a matcher
+			g.Add(nil, byName[removed])
+			ms = append([]zzRM{}, ms...)
+			ms[removed] = zzRM{}
+			order = append(order, removed)
+			removed = -1
+		}
 	}
 	// names stay unique: adding a router with a taken name panics and changes nothing
 	if removed != 0 {
@@ -233,10 +253,8 @@ func ZZC13(n int) {
 
 	// reference: first accepting router on the original request
 	q := zzRReq{path, host, accept}
-	for i, m := range ms {
-		if i == removed {
-			continue
-		}
+	for _, i := range order {
+		m := ms[i]
 		res := m.eval(q, nil)
 		if !res.ok {
 			continue
